@@ -8,11 +8,13 @@ package main
 import (
 	"bufio"
 	"bytes"
+	"encoding/hex"
 	"encoding/json"
 	"io/ioutil"
 	"log"
 	"os"
 	"os/exec"
+	"sort"
 	"sync"
 	"sync/atomic"
 	"time"
@@ -35,13 +37,18 @@ type shClosure struct {
 }
 
 type shOp struct {
-	Op     string            `json:"op"`    // setenv | mk | call | direct | par
-	Kind   string            `json:"kind"`  // mk: "run" | "out"
-	Baked  shSlice           `json:"baked"` // mk
-	Act    string            `json:"act"`   // fs: remove | restore | chmod-x | chmod+x
-	Path   string            `json:"path"`  // fs
-	Epoch  string            `json:"epoch"` // fs: new value of VERIF_FS_EPOCH
-	Probe  []string          `json:"probe"` // call/direct/par: command words to look up right before the call
+	Op    string   `json:"op"`    // setenv | mk | call | direct | par
+	Kind  string   `json:"kind"`  // mk: "run" | "out"
+	Baked shSlice  `json:"baked"` // mk
+	Act   string   `json:"act"`   // fs: remove | restore | chmod-x | chmod+x
+	Path  string   `json:"path"`  // fs
+	Epoch string   `json:"epoch"` // fs: new value of VERIF_FS_EPOCH
+	Probe []string `json:"probe"` // call/direct/par: command words to look up right before the call
+	// env-map entries with arbitrary bytes (hex name, hex value): empty name, '=' or NUL in a name, NUL or
+	// non-UTF-8 bytes in a value, very long values; merged into Emap
+	EmapOdd [][2]string `json:"emap_odd"`
+	// par: heterogeneous calls (closure calls and direct calls with env maps side by side)
+	Calls  []shOp            `json:"calls"`
 	K      string            `json:"k"`
 	V      string            `json:"v"`
 	C      int               `json:"c"`
@@ -84,14 +91,15 @@ type shRep struct {
 	// it starts and then waits for the gate, which the harness opens only when all have reported).
 	// Stalled: after the bound some call had neither started its child nor returned while another
 	// call's child was still waiting, i.e. a call was held back by another call.
-	Alive    int        `json:"alive"`
-	Returned int        `json:"returned_before_gate"`
-	Stalled  bool       `json:"stalled"`
-	WaitedMs int64      `json:"waited_ms"`
-	Outs     []*string  `json:"outs"`
-	Errs     []string   `json:"errs"`
-	Status   []int      `json:"status"` // sh.ExitStatus of each call\'s error
-	Snap     [][]string `json:"snap"`
+	Alive    int           `json:"alive"`
+	Returned int           `json:"returned_before_gate"`
+	Stalled  bool          `json:"stalled"`
+	WaitedMs int64         `json:"waited_ms"`
+	Outs     []*string     `json:"outs"`
+	Errs     []string      `json:"errs"`
+	Status   []int         `json:"status"`    // sh.ExitStatus of each call\'s error
+	EmapsHex [][][2]string `json:"emaps_hex"` // per call: its env map after the call (direct calls)
+	Snap     [][]string    `json:"snap"`
 }
 
 type shObs struct {
@@ -106,6 +114,7 @@ type shObs struct {
 	Snap    [][]string         `json:"snap"`
 	Emap    map[string]string  `json:"emap"`
 	EmapNil bool               `json:"emap_nil"`
+	EmapHex [][2]string        `json:"emap_hex"` // the env map after the call, byte-exact (hex), sorted
 	Reps    []shRep            `json:"reps,omitempty"`
 }
 
@@ -207,6 +216,64 @@ func shProbe(names []string) map[string]*string {
 	return out
 }
 
+// the map a direct call hands to sh: the plain entries plus the odd ones; nil stays nil without odd entries
+func shEmap(o shOp) map[string]string {
+	m := o.Emap
+	for _, kv := range o.EmapOdd {
+		k, _ := hex.DecodeString(kv[0])
+		v, _ := hex.DecodeString(kv[1])
+		if m == nil {
+			m = map[string]string{}
+		}
+		m[string(k)] = string(v)
+	}
+	return m
+}
+
+func shEmapHex(m map[string]string) [][2]string {
+	out := [][2]string{}
+	keys := []string{}
+	for k := range m {
+		keys = append(keys, k)
+	}
+	sort.Strings(keys)
+	for _, k := range keys {
+		out = append(out, [2]string{hex.EncodeToString([]byte(k)), hex.EncodeToString([]byte(m[k]))})
+	}
+	return out
+}
+
+// one direct call; returns the text handed back (Output*, Exec) and the error
+func shDirect(fn string, emap map[string]string, cmd string, args []string) (out *string, err error, known bool) {
+	known = true
+	switch fn {
+	case "Run":
+		err = sh.Run(cmd, args...)
+	case "RunV":
+		err = sh.RunV(cmd, args...)
+	case "RunWith":
+		err = sh.RunWith(emap, cmd, args...)
+	case "RunWithV":
+		err = sh.RunWithV(emap, cmd, args...)
+	case "Output":
+		var s string
+		s, err = sh.Output(cmd, args...)
+		out = &s
+	case "OutputWith":
+		var s string
+		s, err = sh.OutputWith(emap, cmd, args...)
+		out = &s
+	case "Exec":
+		var so, se bytes.Buffer
+		_, err = sh.Exec(emap, &so, &se, cmd, args...)
+		s := so.String()
+		out = &s
+	default:
+		known = false
+	}
+	return
+}
+
 func shStatus(err error) int {
 	if err == nil {
 		return 0
@@ -288,35 +355,13 @@ func init() {
 				ob.Argv = shLines(q.OutFile)
 			case "direct":
 				args := shMk(arrays, o.Args)
-				emap := o.Emap
+				emap := shEmap(o)
 				var err error
 				bad := false
 				ob.Stdout = shCapture(capPath, func() {
-					switch o.Fn {
-					case "Run":
-						err = sh.Run(o.Cmd, args...)
-					case "RunV":
-						err = sh.RunV(o.Cmd, args...)
-					case "RunWith":
-						err = sh.RunWith(emap, o.Cmd, args...)
-					case "RunWithV":
-						err = sh.RunWithV(emap, o.Cmd, args...)
-					case "Output":
-						var s string
-						s, err = sh.Output(o.Cmd, args...)
-						ob.Out = &s
-					case "OutputWith":
-						var s string
-						s, err = sh.OutputWith(emap, o.Cmd, args...)
-						ob.Out = &s
-					case "Exec":
-						var so, se bytes.Buffer
-						_, err = sh.Exec(emap, &so, &se, o.Cmd, args...)
-						s := so.String()
-						ob.Out = &s
-					default:
-						bad = true
-					}
+					var known bool
+					ob.Out, err, known = shDirect(o.Fn, emap, o.Cmd, args)
+					bad = !known
 				})
 				if bad {
 					return shRes{Error: "unknown fn " + o.Fn}
@@ -326,16 +371,21 @@ func init() {
 				ob.Argv = shLines(q.OutFile)
 				ob.Emap = emap
 				ob.EmapNil = emap == nil
+				ob.EmapHex = shEmapHex(emap)
 			case "par":
 				os.Setenv("VERIF_ARGV_GATE", q.Gate)
 				for rep := 0; rep < o.Reps; rep++ {
 					os.Remove(q.Gate)
 					os.Truncate(q.OutFile, 0)
 					specs := o.Extras
-					if len(specs) == 0 {
+					if len(specs) == 0 && len(o.Calls) == 0 {
 						specs = []shSlice{o.A, o.B}
 					}
 					n := len(specs)
+					if len(o.Calls) > 0 {
+						n = len(o.Calls)
+					}
+					emaps := make([]map[string]string, n)
 					var rp shRep
 					rp.Outs = make([]*string, n)
 					errs := make([]error, n)
@@ -347,11 +397,31 @@ func init() {
 					wg.Add(n)
 					var returned int32
 					for gi := 0; gi < n; gi++ {
-						extra := shMk(arrays, specs[gi])
-						go func(gi int, extra []string) {
+						var extra []string
+						var call *shOp
+						if len(o.Calls) > 0 {
+							call = &o.Calls[gi]
+							if call.Op == "direct" {
+								extra = shMk(arrays, call.Args)
+								emaps[gi] = shEmap(*call)
+							} else {
+								extra = shMk(arrays, call.Extra)
+							}
+						} else {
+							extra = shMk(arrays, specs[gi])
+						}
+						go func(gi int, extra []string, call *shOp) {
 							defer wg.Done()
 							defer atomic.AddInt32(&returned, 1)
 							<-turn[gi]
+							if call != nil {
+								if call.Op == "direct" {
+									rp.Outs[gi], errs[gi], _ = shDirect(call.Fn, emaps[gi], call.Cmd, extra)
+								} else {
+									rp.Outs[gi], errs[gi] = closures[call.C](extra...)
+								}
+								return
+							}
 							switch o.ParFn {
 							case "Output":
 								s, err := sh.Output(o.Cmd, extra...)
@@ -361,7 +431,7 @@ func init() {
 							default:
 								rp.Outs[gi], errs[gi] = closures[o.C](extra...)
 							}
-						}(gi, extra)
+						}(gi, extra, call)
 					}
 					t0 := time.Now()
 					bound := time.Duration(o.BoundMs) * time.Millisecond
@@ -421,6 +491,10 @@ func init() {
 					<-done
 					rp.Errs = make([]string, n)
 					rp.Status = make([]int, n)
+					rp.EmapsHex = make([][][2]string, n)
+					for gi := range emaps {
+						rp.EmapsHex[gi] = shEmapHex(emaps[gi])
+					}
 					for gi := range errs {
 						rp.Errs[gi] = errStr(errs[gi])
 						rp.Status[gi] = shStatus(errs[gi])
